@@ -50,7 +50,7 @@ REQUIRED = [
     "Sigc.C05.passed_as", "Sigc.C05.chain_passed", "Sigc.C05.accepts_iff",
     "Sigc.C05.wrong_arity_rejected", "Sigc.C05.nonconvertible_param_rejected",
     "Sigc.C05.nonconst_ref_from_value_or_const_rejected", "Sigc.C05.nonconst_method_on_const_object_rejected",
-    "Sigc.C05.accepts_bind_at_iff", "Sigc.C05.bind_at_nonconst_ref_from_value_or_const_rejected",
+    "Sigc.C05.accepts_bind_at_iff", "Sigc.C05.bind_at_nonconst_ref_from_value_or_const_rejected", "Sigc.C05.bind_at_nonconst_ref_after_bound_rejected",
     "Sigc.C05.incompatible_result_rejected", "Sigc.C05.convertible_accepted",
     "Sigc.C05.erased_call_type_exact",
     "Sigc.C05.explicit_only_result_rejected", "Sigc.C05.explicit_only_type_result_rejected_for_arithmetic",
